@@ -1546,6 +1546,8 @@ class EBPF(EBPFBase):
             for tmp, i in save:
                 self.append(Opcode.MOV+Opcode.LONG+Opcode.REG, i, tmp, 0, 0)
             self.owners -= registers
+            # the saved registers have their value back
+            self.owners |= {i for tmp, i in save}
 
     @contextmanager
     def get_stack(self, size):
